@@ -553,6 +553,18 @@ func C09(r *eng.Run) {
 	})
 	r.Phase("Float", t0, nil)
 
+	// R: values reached by operation sequences
+	rs9 := reachedAll(r)
+	if !r.Thorough() {
+		rs9 = strideBits(rs9, 30000)
+	}
+	reachedPhase(r, "R values reached by operation sequences", rs9, func(w *eng.W, b ref.Bits, v ref.Val) {
+		checkToFloat(w, b, v)
+		if b[15]%8 == 0 || r.Thorough() {
+			checkBigFloat(w, b, v)
+		}
+	})
+
 	t0 = time.Now()
 	type bf struct {
 		f *big.Float
